@@ -371,6 +371,9 @@ contract(module="coco.cm3toppm", qualname="convert", tag="C17", also=["C16", "C1
              0: dict(ghost_vars=["IMGZ", "gl", "ls", "cb", "k2", "lp", "gt", "sel", "s2", "v"],
                      ghost_body_start="assume(pos < L)\nassume(inp[pos] == 192)\n",
                      inv=["len(linbuf) == 160", "len(buff1) == 20", CM3_ZERO, CM3_LINBUF_LINE.format(G="(192*ii)"),
+                          # the first page starts where the format puts it (the assumption "the next byte is the line count 192" below is
+                          # relative to the code's own position: without this clause a decoder that skips one byte too many would satisfy it)
+                          "ii > 0 or pos == dstart",
                           "n == 960*(192*ii)", CM3_PX.format(K="160*(192*ii)")]),
              1: dict(ghost_vars=["IMGZ", "gl", "ls", "cb", "k2", "lp", "gt", "sel", "s2", "v"],
                      ghost_body_start=CM3_GHOST_LINE,
